@@ -317,6 +317,12 @@ fn cmp_toks(a: &[Tok], b: &[Tok], req: InfoSubset) -> Option<String> {
         if req.contains(InfoSubset::READING_FORM) { f!(reading); }
         if req.contains(InfoSubset::SURFACE) { f!(wi_surface); }
         if req.contains(InfoSubset::HEAD_WORD_LENGTH) { f!(head_len); }
+        // the unit lists and structure a tokenizer created now would load (also those of the modes it is NOT in: on-demand
+        // split_into in another mode reads them)
+        if req.contains(InfoSubset::SPLIT_A) { f!(a_split); }
+        if req.contains(InfoSubset::SPLIT_B) { f!(b_split); }
+        if req.contains(InfoSubset::WORD_STRUCTURE) { f!(wstruct); }
+        if req.contains(InfoSubset::SYNONYM_GROUP_ID) { f!(syn); }
     }
     None
 }
